@@ -482,7 +482,10 @@ MANIFEST = {
              "the committed/injected states), aborted_disappears + abort_restores, received_never_lost (everything received stays covered by value "
              "and queue, also after an abort), owed_after_commit + commit_sets_owed (count 0 only if every other peer received a state above the "
              "last commit; broadcasts reaching all peers), eventual_delivery (bounded-round quiescent convergence in a full mesh) and its GCounter "
-             "instance gcounter_resource_converges (all replicas read the same number). The theorems are about crdt.go after three fix: commits "
+             "instance gcounter_resource_converges (all replicas read the same number). Section FineGrained: the same theorems proved directly for the "
+             "finer-grained model C13/ModelFine.v (round = begin / per-peer serve / drop / per-reply handling with needBroadcastGen; merger = take / apply), "
+             "plus commit_during_round_still_owed (after a writing commit the owed count stays len(peerIds) under every continuation in which the node "
+             "does not begin a new round). The theorems are about crdt.go after three fix: commits "
              "(merge into oldValue during a section; owed count set at Commit; replies of a round do not pay off a commit that landed inside it); "
              "on the pinned code the check reports received-state-lost, "
              "owed-broadcast-consumed and no-convergence from the corpus seeds."),
